@@ -49,17 +49,19 @@ def rule_a(ctx):
     rid = "C09.a"
     ctx.rule(rid, "in every iterator action the slot store dominates the wake of the self-pipe, and the wake happens on every path (a woken "
                   "consumer finds the flag; every delivery wakes)", floor=6)
-    for m in action_closures(F):
-        ctx.fn(m)
+    from .nf import NF
+    for m0 in action_closures(F):
+        ctx.fn(m0)
+        m = NF(F, m0)          # the body may live in a private method the closure forwards to
         st = store_calls(F, m); wk = wake_calls(F, m)
-        key = "action<%s>" % exf_of(m.name)
+        key = "action<%s>" % exf_of(m0.name)
         dom = cfg.dominators(m)
         okk = len(st) >= 1 and len(wk) >= 1 and all(any(s in dom[w] and s != w for s, _ in st) for w, _ in wk)
-        ctx.check(okk, rid, key + ":store-before-wake", "store into the slot dominates wake_readers", m.span, {"stores": [t["sp"] for _, t in st], "wakes": [t["sp"] for _, t in wk]})
+        ctx.check(okk, rid, key + ":store-before-wake", "store into the slot dominates wake_readers", m0.span, {"stores": [t["sp"] for _, t in st], "wakes": [t["sp"] for _, t in wk]})
         r = cfg.reachable(m, 0, avoid={w for w, _ in wk}, unwind=False) & set(m.exits())
-        ctx.check(not r and wk, rid, key + ":always-wakes", "every path of the action wakes the readers", m.span, None)
+        ctx.check(not r and wk, rid, key + ":always-wakes", "every path of the action wakes the readers", m0.span, None)
         r2 = cfg.reachable(m, 0, avoid={s for s, _ in st}, unwind=False) & set(m.exits())
-        ctx.check(not r2 and st, rid, key + ":always-stores", "every path of the action stores into the slot", m.span, None)
+        ctx.check(not r2 and st, rid, key + ":always-stores", "every path of the action stores into the slot", m0.span, None)
 
 
 def rule_b(ctx):
@@ -77,7 +79,8 @@ def rule_b(ctx):
         raise AnchorLost("Exfiltrator::load impls")
     for l in loads:
         callers = [(F.inst[c], k) for (c, k, bb) in F.callers().get(l.id, [])]
-        bad = [c.name for c, k in callers if c.id not in next_ids and not re.search(r"Exfiltrator>::load(::\{closure#\d+\})?$", c.name)]
+        bad = [c.name for c, k in callers if c.id not in next_ids and not re.search(r"Exfiltrator>::load(::\{closure#\d+\})?$", c.name)
+               and not any(c.name.startswith(n.name + "::{closure#") for n in nexts)]
         ctx.check(not bad, rid, "load-callers<%s>" % exf_of(l.name), "%s is called only from Pending::next or a delegating load" % l.name.split(" as ")[0][1:].split("::")[-1], l.span, bad)
     # b2: drain
     recv_users = [i for i in F.inst if i.local and i.body is not None and call_sites(F, i, foreign("recv")) and i.crate == "signal_hook"]
@@ -90,10 +93,11 @@ def rule_b(ctx):
                   n.span, None)
     pend_fns = insts(F, r"^signal_hook::iterator::backend::SignalDelivery::<.*>::pending$", "SignalDelivery::pending", 3)
     pend_ids = {p.id for p in pend_fns}
+    from .nf import boundary_callers
     for fid in flush_ids:
-        callers = {F.inst[c].defp for (c, k, bb) in F.callers().get(fid, [])}
+        callers = {F.inst[c].defp for c in boundary_callers(F, [fid])}
         ctx.check(callers <= {"signal_hook::iterator::backend::SignalDelivery::<R, E>::pending"}, rid, "drain-callers@%s" % keyname(F.inst[fid].name),
-                  "the drain is called only from pending()", F.inst[fid].span, sorted(callers))
+                  "the drain is reached only from pending() (private helpers in between do not count)", F.inst[fid].span, sorted(callers))
     load_ids = {l.id for l in loads}
     for p in pend_fns:
         ctx.fn(p)
@@ -142,8 +146,9 @@ def rule_b(ctx):
             ctx.check(after_none, rid, key + ":callback-after-exhausted", "the readiness callback is asked only after the current batch yielded None in that iteration", ct["sp"],
                       [(show(c), i) for c, i, _ in facts][:6])
         # assignment of a fresh batch -> next() before the next callback
+        # (the batch field is located by its type: the `Pending<E>` member of the iterator state)
         assigns = [bb for bb, bl in enumerate(m.blocks) for s in bl["s"] if s["k"] == "assign" and s["l"]["p"] and s["l"]["p"][-1]["k"] == "field"
-                   and s["l"]["p"][-1]["n"] == "iter" and not bl["cleanup"]]
+                   and (s["l"]["p"][-1].get("t") or "").startswith(PENDING + "<") and not bl["cleanup"]]
         okk = bool(assigns)
         for a in assigns:
             r = cfg.reachable_after(m, a, avoid=set(nx), unwind=False) | ({a} if False else set())
@@ -156,12 +161,31 @@ def rule_c(ctx):
     F = ctx.F
     rid = "C09.c"
     ctx.rule(rid, "Pending::next advances its position only on the branch where the slot reported None (a channel-backed slot is polled until empty)", floor=3)
-    for n in pending_next(F):
-        ctx.fn(n)
-        key = "next<%s>" % exf_of(n.name)
+    from .nf import NF
+    for n0 in pending_next(F):
+        ctx.fn(n0)
+        n = NF(F, n0)
+        key = "next<%s>" % exf_of(n0.name)
         lds = load_calls(F, n)
-        writes = [(bb, si, s) for bb, bl in enumerate(n.blocks) for si, s in enumerate(bl["s"]) if s["k"] == "assign" and s["l"]["p"] and
-                  s["l"]["p"][-1]["k"] == "field" and s["l"]["p"][-1]["n"] == "position" and not bl["cleanup"]]
+        fl_ = flow(n)
+
+        def writes_position(bb, si, s):
+            lp = s["l"]["p"]
+            if not lp:
+                return False
+            if lp[-1]["k"] == "field" and lp[-1]["n"] == "position":
+                return True
+            if len(lp) == 1 and lp[0]["k"] == "deref":
+                # `*position = ..` through a reference taken from the field (possibly captured by a closure)
+                base = [deep_strip(e) for e in fl_.local(s["l"]["l"], (bb, si))]
+                def is_pos_ref(e):
+                    while e[0] in ("ref", "deref"):
+                        e = deep_strip(e[1])
+                    return e[0] == "field" and e[2] == "position"
+                return bool(base) and all(is_pos_ref(e) for e in base)
+            return False
+        writes = [(bb, si, s) for bb, bl in enumerate(n.blocks) if not bl.get("dead") and not bl["cleanup"] for si, s in enumerate(bl["s"])
+                  if s["k"] == "assign" and writes_position(bb, si, s)]
         okk = bool(writes) and bool(lds)
         why = []
         for (bb, si, s) in writes:
@@ -178,9 +202,11 @@ def rule_c(ctx):
             inc = all(e[0] == "binop" and e[1].startswith("Add") and fold(e[3]) == 1 for e in v)
             if not (none and inc):
                 okk = False; why.append({"where": s["sp"], "on_none_branch": none, "plus_one": inc})
-        ctx.check(okk, rid, key + ":advance-only-on-none", "position += 1 happens only when load() returned None for the current slot", n.span, why)
+        ctx.check(okk, rid, key + ":advance-only-on-none", "position += 1 happens only when load() returned None for the current slot", n0.span, why)
         # the Some result is returned as is
+        from ..flow import infeasible
         rets = [deep_strip(e) for rb in n.exits() for e in flow(n).place({"l": 0, "p": []}, (rb, len(n.stmts(rb))))]
+        rets = [e for e in rets if not infeasible(e)]
         ldb = [l for l, _ in lds]
 
         def from_load(e):
@@ -195,7 +221,7 @@ def rule_c(ctx):
                     deep_strip(deep_strip(x[1])[1])[0] == "call" and deep_strip(deep_strip(x[1])[1])[1] in ldb
             return False
         okr = all(from_load(e) for e in rets)
-        ctx.check(okr, rid, key + ":returns-load-result", "next returns the slot's report unchanged, or None at the end of the table", n.span, [show(e) for e in rets])
+        ctx.check(okr, rid, key + ":returns-load-result", "next returns the slot's report unchanged, or None at the end of the table", n0.span, [show(e) for e in rets])
 
 
 def mentions_call_arg(m, ce, call_bbs):
